@@ -71,6 +71,9 @@ CLAIMED = {
  "C05": ("provenance and ordering rules on SSA (fresh call frame, bind-before-parent), who-calls-which scope mutator per runtime type via the extracted providerMap, reader/writer agreement of map key representations in package scope",
          "Decides the clauses of C05 that are visible in the shape of the code: call frames are allocated per call and parameters are bound before the frame is parented to the declaration scope; let uses only SetLocalValue and assignment only SetValue; "
          "the key representations tried when reading an ECAL map equal those used when writing (violated today: known finding, `m := {1:2}; m[1] := 3; m[1]` → 2). Name resolution, closures, objects and the list/map builtins are runtime behaviour and not decided.", "3/C05"),
+ "C06": ("obligation analysis: enumeration of every panic-capable SSA instruction in the functions reachable (CHA) from the parsing/validation/evaluation/scope/builtin/engine entry points; automatic discharge by dominating and path-sensitive facts, range loops, callee/slot typing and the AST-shape tables; reviewed table; known findings",
+         "Every unchecked type assertion, index/slice with unproven bounds, integer division, interface comparison, interface-keyed map operation, possibly negative make, panicking API call, nil error type and dereference of a constructed node's token in ~590 reachable functions (≈520 obligations) is discharged by a sound rule, by one of 106 reviewed entries (one named construct, one line of reason) or reported. "
+         "A new unguarded construct anywhere on these paths is a VIOLATION naming the instruction and a call chain from an entry point. General nil-pointer freedom, user-written non-termination and library internals are not claimed.", "3/C06"),
 }
 
 NOT_YET = "check not built yet in this session (see DESIGN.md section 3 for the planned static rule)"
